@@ -3,7 +3,7 @@
 #![allow(unused)]
 use std::num::NonZeroUsize;
 
-use constriction::backends::{BoundedReadWords, Cursor, ReadWords};
+use constriction::backends::{BoundedReadWords, Cursor, ReadWords, WriteWords};
 use constriction::stream::queue::{EncoderSituation, RangeCoderState, RangeDecoder, RangeEncoder};
 use constriction::stream::{Code, Decode, Encode, IntoDecoder, TryCodingError};
 use constriction::{BitArray, CoderError, NonZeroBitArray, Pos, Queue, Seek};
@@ -24,6 +24,9 @@ pub trait RangeCombo {
     /// encode symbol `s` with the table model
     fn enc_sym(c: &mut RangeEncoder<Self::W, Self::S>, b: u32, p: u32, cdf: &[u128], s: usize) -> Option<String>;
     fn dec<Bk: ReadWords<Self::W, Queue>>(d: &mut RangeDecoder<Self::W, Self::S, Bk>, b: u32, p: u32, cdf: &[u128]) -> Option<String>;
+    /// encode symbol `s` with the table model into an encoder over any sink (`full` = the sink
+    /// refused a word)
+    fn enc_sym_any<Bk: WriteWords<Self::W>>(c: &mut RangeEncoder<Self::W, Self::S, Bk>, b: u32, p: u32, cdf: &[u128], s: usize) -> Option<String>;
     /// batch forms: 0 = encode_symbols, 2 = try_encode_symbols (`Err` item at `err_at`),
     /// 4 = encode_iid_symbols
     fn enc_batch(c: &mut RangeEncoder<Self::W, Self::S>, b: u32, p: u32, form: u32, cdf: &[u128], syms: &[usize], err_at: Option<usize>) -> Option<String>;
@@ -72,6 +75,17 @@ where
         Err(CoderError::Frontend(_)) => "invalid_data".into(),
         Err(CoderError::Backend(_)) => "readerr".into(),
     }
+}
+
+fn enc_sym_any_impl<W, S, Pr, Bk, const P: usize>(c: &mut RangeEncoder<W, S, Bk>, cdf: &[u128], s: usize) -> String
+where
+    W: BitArray + Into<S> + AsPrimitive<Pr>,
+    S: BitArray + AsPrimitive<W>,
+    Pr: BitArray + Into<W>,
+    Bk: WriteWords<W>,
+{
+    let m = TableModel::<Pr, P>::new(cdf.to_vec());
+    enc_result(c.encode_symbol(s, &m))
 }
 
 fn enc_batch_impl<W, S, Pr, const P: usize>(c: &mut RangeEncoder<W, S>, form: u32, cdf: &[u128], syms: &[usize], err_at: Option<usize>) -> String
@@ -159,6 +173,12 @@ macro_rules! impl_range_combo {
             fn dec<Bk: ReadWords<$W, Queue>>(d: &mut RangeDecoder<$W, $S, Bk>, b: u32, p: u32, cdf: &[u128]) -> Option<String> {
                 match (b, p) {
                     $($( (bb, $P) if bb == <$B>::BITS => Some(dec_impl::<$W, $S, $B, Bk, $P>(d, cdf)), )*)*
+                    _ => None,
+                }
+            }
+            fn enc_sym_any<Bk: WriteWords<$W>>(c: &mut RangeEncoder<$W, $S, Bk>, b: u32, p: u32, cdf: &[u128], s: usize) -> Option<String> {
+                match (b, p) {
+                    $($( (bb, $P) if bb == <$B>::BITS => Some(enc_sym_any_impl::<$W, $S, $B, Bk, $P>(c, cdf, s)), )*)*
                     _ => None,
                 }
             }
